@@ -44,20 +44,21 @@ S1T == L \cup MaxOf(L)
 \* depth <= 2, <= 3 leaves
 SrcE1 ==
     IF Thorough
-    THEN S1T \cup WfS(Seq2(S1T, S1T)) \cup MaxOf(WfS(Seq2(L, L))) \cup WfS(Seq3(L2))
+    THEN S1T \cup WfS(Seq2(S1T, L)) \cup WfS(Seq2(L, S1T)) \cup MaxOf(WfS(Seq2(L, L))) \cup WfS(Seq3(L2))
          \cup WfS({SSeq(<<x, SSeq(<<y, z>>)>>) : x \in L2, y \in L2, z \in L2})
          \cup WfS({SSeq(<<SSeq(<<x, y>>), z>>) : x \in L2, y \in L2, z \in L2})
     ELSE S1 \cup WfS(Seq2(S1, S1)) \cup MaxOf(WfS(Seq2(L2, L2)))
          \cup WfS({SSeq(<<x, y, z>>) : x \in {SAcct("a", NoOD), SAcct("a", 2)}, y \in {SAcct("b", NoOD), SMax(1, SAcct("b", NoOD))}, z \in {SWorld, SAcct("c", NoOD), SAcct("c", Unb)}})
 
-AmtsE1 == IF Thorough THEN {0, 1, 2, 3, 5, 6} ELSE {0, 2, 5}
+AmtsE1 == IF Thorough THEN {0, 1, 3, 6} ELSE {0, 2, 5}
 BalsE1 == IF Thorough
-          THEN {Bal3(a, b, cc) : a \in {-2, 0, 1, 4}, b \in {-1, 0, 2}, cc \in {0, 3}}
+          THEN {Bal3(a, b, 2) : a \in {-2, 0, 1, 4}, b \in {-1, 0, 2}}
           ELSE {Bal3(a, b, 1) : a \in {-1, 0, 1, 3}, b \in {0, 2}}
 
 CasesE1 == {Case("E1", <<Send(A1, amt, s, DAcct("c"))>>, bal) : amt \in AmtsE1, s \in SrcE1, bal \in BalsE1}
+BalsE2 == IF Thorough THEN {Bal3(a, b, 2) : a \in {-2, 0, 4}, b \in {-1, 2}} ELSE BalsE1
 CasesE2 == {Case("E2", <<Send(A1, AllAmt, s, d)>>, bal) :
-                s \in {x \in SrcE1 : WfSrc(x, TRUE)}, bal \in BalsE1,
+                s \in {x \in SrcE1 : WfSrc(x, TRUE)}, bal \in BalsE2,
                 d \in {DAcct("c"), DSeq(<<2>>, <<DAcct("c")>>, DKept)}}
 
 \* ------------------------------------------------------------------ destination building blocks
@@ -93,12 +94,12 @@ AmtsE3 == IF Thorough THEN {0, 1, 2, 4, 5, 6} ELSE {0, 1, 5, 6}
 CasesE3 == {Case("E3", <<Send(A1, amt, s, d)>>, Bal3(2, 3, 0)) : amt \in AmtsE3, s \in SrcE3, d \in DstE3}
 
 \* ------------------------------------------------------------------ allotment sources
-SrcE4a == {SAllot(pp, <<x, y>>) : pp \in PortPairs, x \in (IF Thorough THEN S1T ELSE S1), y \in WfS(L2 \cup (IF Thorough THEN MaxOf(L2) ELSE {}))}
+SrcE4a == {SAllot(pp, <<x, y>>) : pp \in PortPairs, x \in (IF Thorough THEN S1T ELSE S1), y \in L2}
 SrcE4b == {SAllot(pp, <<x, y, z>>) : pp \in PortTriples,
              x \in {SAcct("a", NoOD), SAcct("a", Unb), SWorld}, y \in {SAcct("b", NoOD), SAcct("a", NoOD), SMax(1, SAcct("b", 2))},
              z \in {SAcct("c", NoOD), SWorld, SSeq(<<SAcct("b", NoOD), SAcct("c", Unb)>>)}}
-AmtsE4 == IF Thorough THEN {0, 1, 2, 5, 6} ELSE {1, 5}
-BalsE4 == IF Thorough THEN {Bal3(a, b, 1) : a \in {-1, 0, 3}, b \in {0, 2, 4}}
+AmtsE4 == IF Thorough THEN {0, 2, 5} ELSE {1, 5}
+BalsE4 == IF Thorough THEN {Bal3(a, b, 1) : a \in {-1, 3}, b \in {0, 2}}
           ELSE {Bal3(a, b, 1) : a \in {0, 3}, b \in {0, 2}}
 CasesE4 == {Case("E4", <<Send(A1, amt, s, d)>>, bal) : amt \in AmtsE4, s \in SrcE4a \cup SrcE4b, bal \in BalsE4,
               d \in {DAcct("c")}}
@@ -131,7 +132,7 @@ ProgsE5 ==
     \cup {<<x, m, y>> : x \in {Send(A1, 3, SWorld, DAcct("a")), Send(A1, 2, SAcct("a", NoOD), DAcct("b"))}, m \in MetaMenu, y \in {Send(A1, AllAmt, SAcct("a", NoOD), DAcct("c")), Send(A2, 1, SAcct("a", NoOD), DAcct("b"))}}
     \cup {<<m1, m2, x>> : m1 \in MetaMenu, m2 \in MetaMenu, x \in {Send(A1, 1, SWorld, DAcct("a"))}}
     \cup (IF Thorough THEN {<<x, y, z>> : x \in Menu, y \in Menu, z \in Menu} ELSE {})
-CasesE5 == {Case("E5", p, bal) : p \in {q \in ProgsE5 : NbBalSends(q) <= 1}, bal \in (IF Thorough THEN {Bal6(a, 1, 0, 1, 0, 0) : a \in {-1, 0, 2}} ELSE BalsE5)}
+CasesE5 == {Case("E5", p, bal) : p \in {q \in ProgsE5 : NbBalSends(q) <= 1}, bal \in (IF Thorough THEN {Bal6(a, b, 0, 1, 0, 0) : a \in {-1, 0, 2}, b \in {0, 1}} ELSE BalsE5)}
 
 \* ------------------------------------------------------------------ programs the compiler must reject
 BadSrc == NotWfS(Seq2(S1, S1))
